@@ -25,7 +25,7 @@ void alloc_suspend(int) __attribute__((weak));
 enum { K_FREE = 0, K_STREAM, K_LISTENER, K_CONNECTING };
 
 struct ffd {
-	int kind, open, closed_once, attempt;
+	int kind, open, closed_once, attempt, bound;
 	/* inbound */
 	const uint8_t * in; size_t inlen, arrived, nread; int in_end, end_arrived, end_delivered;
 	int spurious_r, eintr_r; size_t hold;	/* inbound data is held back until this many bytes were sent (causal peer) */
@@ -51,7 +51,7 @@ long long fk_now_us = 1000000;
 int fk_teardown_mode = 0, fk_poll_horizon = 200, fk_npolls = 0;
 void (*fk_pre_poll_hook)(const struct pollfd *, int, int) = NULL;
 int fk_accept_hard_errors = 0;
-int fk_send_deviated = 0, fk_force_arrival = 0; size_t fk_force_space = 0;
+int fk_send_deviated = 0, fk_force_arrival = 0, fk_expect_bind = 0; size_t fk_force_space = 0;
 void (*fk_post_poll_hook)(int) = NULL;
 void (*fk_blocked_hook)(void) = NULL;
 
@@ -349,6 +349,7 @@ connect(int fd, const struct sockaddr * name, socklen_t namelen)
 	if (name != NULL && namelen >= sizeof(struct sockaddr_in) && name->sa_family == AF_INET) tag = ntohs(((const struct sockaddr_in *)name)->sin_port);
 	if (nconnects < 16) conn_order[nconnects] = tag;
 	nconnects++;
+	if (fk_expect_bind && !f->bound) misuse("connect on descriptor %d before binding it to the requested local address", fd);
 	switch (f->behav) {
 	case FK_C_REFUSED: f->conn_done = 1; f->so_error = ECONNREFUSED; mc_note("connect(fd %d, addr %d) -> ECONNREFUSED", fd, tag); errno = ECONNREFUSED; return (-1);
 	case FK_C_IMMEDIATE: f->conn_done = 1; f->so_error = 0; mc_note("connect(fd %d, addr %d) -> 0", fd, tag); return (0);
@@ -373,7 +374,7 @@ getsockopt(int fd, int level, int optname, void * optval, socklen_t * optlen)
 	return (0);
 }
 int setsockopt(int fd, int level, int optname, const void * optval, socklen_t optlen){ (void)level; (void)optname; (void)optval; (void)optlen; if (!isfake(fd)) { errno = EBADF; return (-1); } return (0); }
-int bind(int fd, const struct sockaddr * a, socklen_t l){ (void)a; (void)l; if (!isfake(fd)) { errno = EBADF; return (-1); } return (0); }
+int bind(int fd, const struct sockaddr * a, socklen_t l){ (void)a; (void)l; if (!isfake(fd)) { errno = EBADF; return (-1); } getf(fd)->bound = 1; mc_note("bind(fd %d)", fd); return (0); }
 int listen(int fd, int b){ (void)b; if (!isfake(fd)) { errno = EBADF; return (-1); } return (0); }
 
 int
